@@ -206,7 +206,7 @@ fn lean_xor_set(block: &mut [u8], val: &[u8]) {
         k += 1;
     }
 }
-//@ harness name=wbstep_leaf_xor prop=C18,C20 tier=quick bits=400 variants=belt-block:step est=60 desc="leaf lemma for the long-length step harnesses: the crate's private helpers xor(block, val) and xor_set(block, val) equal their index-loop / u128 transcriptions for all contents and every operand length 0..=16 (zip semantics: the shorter operand decides)"
+//@ harness name=wbstep_leaf_xor prop=C18,C20 tier=quick bits=400 variants=belt-block:step est=65 desc="leaf lemma for the long-length step harnesses: the crate's private helpers xor(block, val) and xor_set(block, val) equal their index-loop / u128 transcriptions for all contents and every operand length 0..=16 (zip semantics: the shorter operand decides)"
 verif_harness! {
     name: wbstep_leaf_xor,
     bytes: 50,
@@ -285,10 +285,10 @@ macro_rules! bstep_set {
         verif_harness! { name: $de, bytes: 34 + $m, unwind: $u, stubs: [(crate::belt_block_raw, stub_raw), (crate::xor, lean_xor), (crate::xor_set, lean_xor_set)], prop: |inp| { bstep_inverse::<$m, $n>(&inp[..], false) } }
     };
 }
-//@ harness name=wbstep_enc_l2048 prop=C18,C20 tier=quick bits=16656 stub=1 quick=C20 variants=belt-block:step est=125 need=7 desc="inductive step, len = 2048 (n = 128: the round counter runs to 256 and no longer fits one octet; same n as 2033..=2047): ONE round of the real belt_wblock_enc with an arbitrary selected counter i0 in 1..=256 on an arbitrary 2048-octet buffer == oracle round i0 (6.2.3 steps 1-4 on 128-bit numbers, counter as the number i0); all keys; belt-block under the key uninterpreted; xor / xor_set through their proved transcriptions; no panic / overflow on the way"
-//@ harness name=wbstep_dec_l2048 prop=C18,C20 tier=quick bits=16656 stub=1 variants=belt-block:step est=140 need=7 desc="inductive step, len = 2048: one round of the real belt_wblock_dec, arbitrary counter i0 in 1..=256, arbitrary buffer == oracle round (6.2.4)"
-//@ harness name=wbstep_inv_ed_l2048 prop=C18,C01,C20 tier=quick bits=16656 stub=1 quick=C01 variants=belt-block:step est=240 need=11 desc="inductive step, len = 2048: dec round i0 after enc round i0 restores the buffer, arbitrary i0 in 1..=256, arbitrary buffer and key (the compositions are then inverse in this order)"
-//@ harness name=wbstep_inv_de_l2048 prop=C18,C01,C20 tier=quick bits=16656 stub=1 variants=belt-block:step est=195 need=11 desc="inductive step, len = 2048: enc round i0 after dec round i0 restores the buffer"
+//@ harness name=wbstep_enc_l2048 prop=C18,C20 tier=quick bits=16656 stub=1 quick=C20 variants=belt-block:step est=135 need=7 desc="inductive step, len = 2048 (n = 128: the round counter runs to 256 and no longer fits one octet; same n as 2033..=2047): ONE round of the real belt_wblock_enc with an arbitrary selected counter i0 in 1..=256 on an arbitrary 2048-octet buffer == oracle round i0 (6.2.3 steps 1-4 on 128-bit numbers, counter as the number i0); all keys; belt-block under the key uninterpreted; xor / xor_set through their proved transcriptions; no panic / overflow on the way"
+//@ harness name=wbstep_dec_l2048 prop=C18,C20 tier=quick bits=16656 stub=1 variants=belt-block:step est=130 need=7 desc="inductive step, len = 2048: one round of the real belt_wblock_dec, arbitrary counter i0 in 1..=256, arbitrary buffer == oracle round (6.2.4)"
+//@ harness name=wbstep_inv_ed_l2048 prop=C18,C01,C20 tier=quick bits=16656 stub=1 quick=C01 variants=belt-block:step est=285 need=11 desc="inductive step, len = 2048: dec round i0 after enc round i0 restores the buffer, arbitrary i0 in 1..=256, arbitrary buffer and key (the compositions are then inverse in this order)"
+//@ harness name=wbstep_inv_de_l2048 prop=C18,C01,C20 tier=quick bits=16656 stub=1 variants=belt-block:step est=255 need=11 desc="inductive step, len = 2048: enc round i0 after dec round i0 restores the buffer"
 bstep_set!(wbstep_enc_l2048, wbstep_dec_l2048, wbstep_inv_ed_l2048, wbstep_inv_de_l2048, 2048, 128, 2100);
 //@ harness name=wbstep_enc_l4096 prop=C18,C20 tier=thorough bits=33040 stub=1 est=900 mem=30 variants=belt-block:step desc="inductive step, len = 4096 (n = 256, counter up to 512): one enc round, arbitrary counter, == oracle round"
 //@ harness name=wbstep_dec_l4096 prop=C18,C20 tier=thorough bits=33040 stub=1 est=900 mem=30 variants=belt-block:step desc="inductive step, len = 4096: one dec round == oracle round"
@@ -301,7 +301,7 @@ bstep_set!(wbstep_enc_l4096, wbstep_dec_l4096, wbstep_inv_ed_l4096, wbstep_inv_d
 //@ harness name=wbstep_inv_ed_l2033 prop=C18,C01,C20 tier=thorough bits=16536 stub=1 est=1500 mem=30 variants=belt-block:step desc="inductive step, len = 2033: dec round after enc round restores the buffer"
 //@ harness name=wbstep_inv_de_l2033 prop=C18,C01,C20 tier=thorough bits=16536 stub=1 est=1500 mem=30 variants=belt-block:step desc="inductive step, len = 2033: enc round after dec round restores the buffer"
 step_set!(wbstep_enc_l2033, wbstep_dec_l2033, wbstep_inv_ed_l2033, wbstep_inv_de_l2033, 2033, 2080);
-//@ harness name=wbstep_enc_l100 prop=C18,C20 tier=quick bits=1072 stub=1 variants=belt-block:step est=30 desc="inductive step, len = 100 (not a multiple of 16, n = 7): one enc round, arbitrary counter in 1..=14, == oracle round"
+//@ harness name=wbstep_enc_l100 prop=C18,C20 tier=quick bits=1072 stub=1 variants=belt-block:step est=35 desc="inductive step, len = 100 (not a multiple of 16, n = 7): one enc round, arbitrary counter in 1..=14, == oracle round"
 //@ harness name=wbstep_dec_l100 prop=C18,C20 tier=quick bits=1072 stub=1 variants=belt-block:step est=30 desc="inductive step, len = 100: one dec round == oracle round"
 //@ harness name=wbstep_inv_ed_l100 prop=C18,C01,C20 tier=quick bits=1072 stub=1 variants=belt-block:step est=50 need=4 desc="inductive step, len = 100: dec round after enc round restores the buffer"
 //@ harness name=wbstep_inv_de_l100 prop=C18,C01,C20 tier=quick bits=1072 stub=1 variants=belt-block:step est=45 need=4 desc="inductive step, len = 100: enc round after dec round restores the buffer"
